@@ -56,6 +56,7 @@ pub fn term(t: &T, env: &Env) -> PTerm {
         T::Nil => LTerm::empty_list(),
         T::Cons(h, tl) => LTerm::cons(term(h, env), term(tl, env)),
         T::Any(_) => LTerm::any(),
+        T::Cmp(k, a, b) => crate::cmpd::make(*k, term(a, env), term(b, env)),
     }
 }
 
